@@ -167,6 +167,14 @@ Definition check_case (c : case) : N :=
     | SCustom =>
       if (cls =? 2)%nat then 20 else
       if negb unmod then 16 else
+      (* wave 6 - property oracle for an arbitrary Signer (theorems C01_wire_format and
+         C01_wire_format_no_size_guard): on a chain id >= 0, a 27/28 answer must come back inside the
+         prescribed wire bytes (R, S as magnitudes) and the bytes signed must be the prescribed
+         preimage - whatever the field values; this is what judges the chain ids above 2^53 up to
+         2^63-1, which no KeyPair case reaches *)
+      let judged := (0 <=? chain)%Z && Zin 27 28 ov && (cls =? 0)%nat in
+      if judged && negb (out_matches pl pre) then 11 else
+      if judged && negb (out_matches out (spec_signed fm f cN (y_of_Z ov) (Z.abs_N or_) (Z.abs_N os))) then 10 else
       if negb (out_matches pl mpl) then 2 else
       match sign_mode m t (Some (orc mpl)) chain with
       | Ok mo => if (cls =? 0)%nat && out_matches out mo then 0 else 1
